@@ -43,6 +43,9 @@ type Spec struct {
 	HandoverH1  int  `json:"h1_handshakes_racing_cancel,omitempty"` // HTTP/1.1 clients whose handshakes complete around the cancel instant
 
 	Signal string `json:"signal,omitempty"` // binary runs: SIGTERM | SIGINT
+	// RepeatSignalMs > 0: the same signal is sent a second time that long after the first one (repeated
+	// cancellation while the shutdown is still in progress)
+	RepeatSignalMs int `json:"repeat_signal_after_ms,omitempty"`
 }
 
 func (s Spec) hasHTTPClose() bool {
@@ -369,7 +372,11 @@ func main() {
 			rng := rand.New(rand.NewSource(run.Seed*7717 + 5))
 			for i := 0; i < run.Pick(4, 20); i++ {
 				sp := Spec{ID: 100000 + i, Seed: run.Seed*1009 + int64(i), Mode: "binary", Signal: []string{"SIGTERM", "SIGINT"}[i%2]}
-				if i >= 2 {
+				if i == 2 || i == 3 || i%5 == 4 {
+					// a shutdown that lasts (a handshaked, still silent HTTP/1.1 connection keeps net/http's
+					// Shutdown busy for about 5 s) and the signal repeated in the middle of it
+					sp.NewH1, sp.RepeatSignalMs = 1+rng.Intn(2), 300+rng.Intn(1500)
+				} else if i >= 2 {
 					sp.IdleH1, sp.IdleH2, sp.Stalled0, sp.StalledHalf = rng.Intn(5), rng.Intn(5), rng.Intn(4), rng.Intn(4)
 					sp.GatedH1Ctx, sp.GatedH2Ctx = rng.Intn(3), rng.Intn(3)
 					if rng.Intn(4) == 0 {
